@@ -141,7 +141,15 @@ func VerifC11Delete() {
 	e, _, _, chk := vC17Env()
 	vPopulateConsumer(e, "1", "07-tendermint-0", "channel-0")
 	vPopulateConsumer(e, "10", "07-tendermint-1", "channel-1")
-	chk.channels["channel-0"] = channeltypes.Channel{State: channeltypes.OPEN}
+	// the CCV channel may still be open, already closed (e.g. after a timeout on the
+	// ordered channel) or unknown to the IBC module
+	chState := vh.ConcretizeInt(vh.Int("channel_state"), 0, 2)
+	switch chState {
+	case 0:
+		chk.channels["channel-0"] = channeltypes.Channel{State: channeltypes.OPEN}
+	case 1:
+		chk.channels["channel-0"] = channeltypes.Channel{State: channeltypes.CLOSED}
+	}
 	e.k.SetConsumerPhase(e.ctx, "10", types.CONSUMER_PHASE_LAUNCHED)
 	e.k.SetConsumerPhase(e.ctx, "1", types.CONSUMER_PHASE_STOPPED)
 	rt := vTimeIn("removal_time")
@@ -163,7 +171,11 @@ func VerifC11Delete() {
 		vh.Assert(after1 == 0, "C11.remove.no-protocol-state-left-after-removal-time")
 		vh.Assert(kept1 >= 6, "C11.remove.descriptive-records-retained")
 		vh.Assert(e.k.GetConsumerPhase(e.ctx, "1") == types.CONSUMER_PHASE_DELETED, "C11.remove.marked-deleted")
-		vh.Assert(len(chk.closed) == 1 && chk.closed[0] == "channel-0", "C11.remove.channel-closed")
+		if chState == 0 {
+			vh.Assert(len(chk.closed) == 1 && chk.closed[0] == "channel-0", "C11.remove.channel-closed")
+		} else {
+			vh.Assert(len(chk.closed) == 0, "C11.remove.closed-channel-not-closed-again")
+		}
 	} else {
 		vh.Assert(after1 == before1, "C11.remove.nothing-deleted-before-removal-time")
 		vh.Assert(e.k.GetConsumerPhase(e.ctx, "1") == types.CONSUMER_PHASE_STOPPED, "C11.remove.still-stopped-before-removal-time")
